@@ -34,7 +34,9 @@ Common(r) ==
     \cup (IF r.later_ok THEN {} ELSE {"C19.later_call_affected"})
 
 ScheduleClauses(r) ==
-    IF r.unrealised # "" THEN {"machinery.schedule_not_realised"}
+    \* an execution that left the forced behaviour (a step order the model does not have) is not judged against the
+    \* model's outcome - it is counted in the evidence - but what the property says about every call still applies
+    IF r.unrealised # "" THEN Common(r)
     ELSE Common(r)
          \cup (IF r.outcome = r.expected THEN {} ELSE {"C19.wrong_outcome"})
          \cup (IF r.outcome = "value" /\ ~r.value_ok THEN {"C19.wrong_value"} ELSE {})
@@ -45,7 +47,7 @@ ScheduleClauses(r) ==
 SweepClauses(r) ==
     LET early == 2 * r.dur_ms < r.limit_ms            \* finished well in time
         late == r.dur_ms > 2 * r.limit_ms + 100       \* certainly not in time
-        okOutcome == IF r.kind \in {"sleep", "native", "swallow"} THEN "value" ELSE "own_exc"
+        okOutcome == IF r.kind \in {"sleep", "native", "swallow", "retnone", "retzero", "retempty"} THEN "value" ELSE "own_exc"
     IN Common(r)
        \cup (IF r.kind = "nested" THEN {}
              ELSE (IF early /\ r.outcome # okOutcome THEN {"C19.wrong_outcome"} ELSE {})
